@@ -184,6 +184,9 @@ pub fn drive<P: Property>(p: &P, opts: &Opts) -> i32 {
                 std::process::exit(2);
             });
         let rep = run_guarded(p, &case);
+        if std::env::var_os("VCHECK_TRACE").is_some() {
+            println!("{}", serde_json::to_string_pretty(&rep.trace).unwrap_or_default());
+        }
         return match rep.violation {
             Some(msg) => {
                 if let Some(sig) = &rep.known {
